@@ -53,6 +53,33 @@ def const_node(v: Any) -> ast.expr:
     return ast.Constant(value=v)
 
 
+def positive_test(t: ast.expr) -> Optional[ast.expr]:
+    """the un-negated test when `t` is a negation (`not c`, `a not in b`, `a is not b`, `a != b`), else None"""
+    if isinstance(t, ast.UnaryOp) and isinstance(t.op, ast.Not):
+        return t.operand
+    if isinstance(t, ast.Compare) and len(t.ops) == 1:
+        flip = {ast.NotIn: ast.In, ast.IsNot: ast.Is, ast.NotEq: ast.Eq}.get(type(t.ops[0]))
+        if flip is not None:
+            return ast.copy_location(ast.Compare(left=t.left, ops=[flip()], comparators=t.comparators), t)
+    return None
+
+
+def _is_keys_call(e) -> bool:
+    return isinstance(e, ast.Call) and isinstance(e.func, ast.Attribute) and e.func.attr == "keys" and not e.args and not e.keywords
+
+
+def _concat_parts(e: ast.expr):
+    """operands of a + chain when at least one is a string literal / f-string (so the chain is string concatenation)"""
+    if isinstance(e, ast.BinOp) and isinstance(e.op, ast.Add):
+        l, r = _concat_parts(e.left), _concat_parts(e.right)
+        if l is None or r is None:
+            return None
+        return l + r
+    if isinstance(e, ast.Constant):
+        return [e] if isinstance(e.value, str) else None
+    return [e]
+
+
 class ExprCanon(ast.NodeTransformer):
     """expression-level canonical forms; `const(name)` returns (True, value) for a foldable constant"""
 
@@ -70,10 +97,72 @@ class ExprCanon(ast.NodeTransformer):
     def visit_IfExp(self, node):
         self.generic_visit(node)
         try:
+            pos = positive_test(node.test)
+            if pos is not None:  # `a if not c else b` -> `b if c else a`
+                node = ast.copy_location(ast.IfExp(test=pos, body=node.orelse, orelse=node.body), node)
             if ast.dump(node.test) == ast.dump(node.body):
                 return ast.copy_location(ast.BoolOp(op=ast.Or(), values=[node.body, node.orelse]), node)
         except Exception:
             pass
+        return node
+
+    _SETOPS = {"union": ast.BitOr, "difference": ast.Sub, "intersection": ast.BitAnd, "symmetric_difference": ast.BitXor}
+
+    def visit_Call(self, node):
+        self.generic_visit(node)
+        f = node.func
+        # set(<generator>) / list(<generator>) -> comprehension
+        if isinstance(f, ast.Name) and f.id in ("set", "list") and len(node.args) == 1 and not node.keywords and isinstance(node.args[0], ast.GeneratorExp) and f.id not in self.bound:
+            g = node.args[0]
+            cls = ast.SetComp if f.id == "set" else ast.ListComp
+            return ast.copy_location(cls(elt=g.elt, generators=g.generators), node)
+        # set(d.keys()) -> set(d)   (also list / sorted / tuple / frozenset / len / iter / enumerate)
+        if isinstance(f, ast.Name) and f.id in ("set", "list", "sorted", "tuple", "frozenset", "iter", "enumerate") and node.args and _is_keys_call(node.args[0]):
+            node.args[0] = node.args[0].func.value
+            return node
+        # a.union(b) -> a | b
+        if isinstance(f, ast.Attribute) and f.attr in self._SETOPS and len(node.args) == 1 and not node.keywords and not isinstance(node.args[0], ast.Starred):
+            return ast.copy_location(ast.BinOp(left=f.value, op=self._SETOPS[f.attr](), right=node.args[0]), node)
+        # isinstance(x, (A, B)) -> isinstance(x, A) or isinstance(x, B)
+        if isinstance(f, ast.Name) and f.id == "isinstance" and len(node.args) == 2 and isinstance(node.args[1], ast.Tuple) and len(node.args[1].elts) > 1 and not node.keywords:
+            import copy as _c
+            return ast.copy_location(ast.BoolOp(op=ast.Or(), values=[ast.Call(func=ast.Name(id="isinstance", ctx=ast.Load()), args=[_c.deepcopy(node.args[0]), e], keywords=[])
+                                                                      for e in node.args[1].elts]), node)
+        return node
+
+    def visit_comprehension(self, node):
+        self.generic_visit(node)
+        if _is_keys_call(node.iter):
+            node.iter = node.iter.func.value
+        return node
+
+    def visit_Compare(self, node):
+        self.generic_visit(node)
+        if len(node.ops) == 1 and isinstance(node.ops[0], (ast.In, ast.NotIn)) and _is_keys_call(node.comparators[0]):
+            node.comparators[0] = node.comparators[0].func.value
+        return node
+
+    def visit_BinOp(self, node):
+        self.generic_visit(node)
+        # string concatenation with a literal part -> f-string
+        if isinstance(node.op, ast.Add):
+            parts = _concat_parts(node)
+            if parts is not None and any(isinstance(p, (ast.Constant, ast.JoinedStr)) for p in parts) and any(not isinstance(p, ast.Constant) for p in parts):
+                vals = []
+                for p in parts:
+                    if isinstance(p, ast.Constant):
+                        vals.append(p)
+                    elif isinstance(p, ast.JoinedStr):
+                        vals.extend(p.values)
+                    else:
+                        vals.append(ast.FormattedValue(value=p, conversion=-1, format_spec=None))
+                merged = []
+                for v in vals:
+                    if isinstance(v, ast.Constant) and merged and isinstance(merged[-1], ast.Constant):
+                        merged[-1] = ast.Constant(value=merged[-1].value + v.value)
+                    else:
+                        merged.append(v)
+                return ast.copy_location(ast.JoinedStr(values=merged), node)
         return node
 
     def visit_keyword(self, node):
@@ -116,13 +205,13 @@ def _pinned_const(name: str):
 _IDENT = re.compile(r"(?<![A-Za-z0-9_.'\"])([A-Z][A-Z0-9_]{2,})(?![A-Za-z0-9_(])")
 
 
-@lru_cache(maxsize=20000)
+@lru_cache(maxsize=200000)
 def canon_text(text: str) -> str:
     """canonical form of a pattern written against the pinned tree"""
     if not isinstance(text, str) or not text:
         return text
     consts = pinned()["consts"]
-    if not any(k in text for k in consts) and " if " not in text:
+    if not any(k in text for k in consts) and not any(tok in text for tok in (" if ", ".union(", ".difference(", ".intersection(", ".keys()", "isinstance(", " + ", "set(", "list(")):
         return text
     for mode in ("eval", "exec"):
         try:
